@@ -8,7 +8,7 @@ from mir2smt.exec import OpaqueV, IntV, BoolV, AggV, EnumV, RefV, UNIT, Stop, mk
 from mir2smt import envlib as E
 from mir2smt.builtins import deref
 
-CRATES = ["ckb-constant", "ckb-occupied-capacity-core", "ckb-gen-types", "ckb-network"]
+CRATES = ["ckb-constant", "ckb-occupied-capacity-core", "ckb-gen-types", "ckb-network", "ckb-sync"]
 MAX = 1 << 23
 
 
@@ -182,7 +182,67 @@ def _taint_decode(S, ob, label, fn, nargs):
     S.prove(ctx, ob, f"{label}_accessor_calls_observed", [], bool(n_acc >= 2))
 
 
-OBLIGATIONS = [m1_extension_accessors, m2_frame_guard, m3_molecule_accessors, m4_discovery_decode_uses_verified_readers]
+def m5_prefilled_indexes(S):
+    """PrefilledVerifier::verify (the guard in front of compact-block reconstruction, whose gap arithmetic `index - filled` would otherwise
+    underflow): accepted iff there is a prefilled transaction, the first index is 0, indexes are strictly increasing and the last one is
+    below prefilled + short ids; 0..4 prefilled transactions, indexes and the number of short ids symbolic"""
+    ob = "C16.m5"
+    f = [x for x in S.prog.funcs if x.kind == "fn" and x.short == "verify" and "compact_block_verifier.rs" in x.name and "{closure" not in x.name]
+    # the three verifiers share the signature; PrefilledVerifier is the one calling IndexTransaction::index but not HashSet
+    src = open("/repo/sync/src/relayer/compact_block_verifier.rs").read()
+    import re as _re
+    mline = _re.search(r"impl PrefilledVerifier \{", src)
+    if not mline:
+        raise Inconclusive("PrefilledVerifier not found in the source")
+    line = src[:mline.start()].count("\n") + 1
+    cand = [x for x in f if f":{line}:" in (x.impl_span or x.name)]
+    if len(cand) != 1:
+        raise Inconclusive(f"PrefilledVerifier::verify: {len(cand)} candidates at line {line}")
+    for n in range(0, 5):
+        ctx = S.ctx(unwind=8)
+        ctx.uninterpreted_unknown_calls = True
+        idx = [ctx.int(f"index{k}", "u32") for k in range(n)]
+        ns = ctx.int("short_ids_len", "usize")
+        ctx.add_side(T.le(ns.t, 1 << 32))
+
+        def get(ex, c, a, d):
+            i = deref(ex, a[1])
+            if not isinstance(i.t, int):
+                raise Stop("symbolic vector index")
+            return mk_option(i.t < n, OpaqueV(f"pt{i.t}", "IndexTransaction") if i.t < n else None, d)
+
+        def index_of(ex, c, a, d):
+            nm = getattr(deref(ex, a[0]), "name", "")
+            return OpaqueV("idx_of." + nm, d)
+
+        def into_usize(ex, c, a, d):
+            nm = getattr(deref(ex, a[0]), "name", "")
+            k = int(nm.rsplit("pt", 1)[1])
+            return IntV(idx[k].t, "usize")
+        ctx.env = [
+            (E.rx(r"CompactBlock::(prefilled_transactions|short_ids)$"), E.opaque_call()),
+            (E.rx(r"IndexTransactionVec::len$"), lambda ex, c, a, d: IntV(n, "usize")),
+            (E.rx(r"IndexTransactionVec::is_empty$"), lambda ex, c, a, d: BoolV(n == 0)),
+            (E.rx(r"ProposalShortIdVec::len$"), lambda ex, c, a, d: ns),
+            (E.rx(r"IndexTransactionVec::get$"), get),
+            (E.rx(r"IndexTransaction::index$"), index_of),
+            (E.rx(r"<Uint32 as Into<usize>>::into$"), into_usize),
+            (E.rx(r"<StatusCode as Into<.*Status>>::into$"), lambda ex, c, a, d: OpaqueV("rejected", d)),
+            (E.rx(r"Status::ok$"), lambda ex, c, a, d: OpaqueV("accepted", d)),
+        ]
+        ps = S.run(ctx, cand[0], [ctx.ref_to(OpaqueV("cb", "CompactBlock"))])
+        S.prove(ctx, ob, f"n{n}_no_panic", [], T.not_(cond_of(panics(ps))))
+        acc = T.or_(*[p.cond() for p in returns(ps) if getattr(p.value, "name", "") == "accepted"])
+        spec = T.and_(bool(n >= 1), *([T.eq(idx[0].t, 0)] if n else []), *[T.lt(idx[k].t, idx[k + 1].t) for k in range(n - 1)],
+                      *([T.lt(idx[n - 1].t, T.add(n, ns.t))] if n else []))
+        S.prove(ctx, ob, f"n{n}_accepted_iff_cellbase_first_increasing_and_in_range", [], T.iff(acc, spec))
+        if n:
+            # consequence used by reconstruct_block: every gap `index_k - (number of transactions placed before it)` is non-negative
+            S.prove(ctx, ob, f"n{n}_accepted_indexes_leave_no_negative_gap", [acc], T.and_(*[T.ge(idx[k].t, k) for k in range(n)]))
+            S.witness(ctx, ob, f"n{n}_reach_accept", [], T.and_(acc, *([T.gt(idx[n - 1].t, n)] if n > 1 else [])))
+
+
+OBLIGATIONS = [m1_extension_accessors, m2_frame_guard, m3_molecule_accessors, m4_discovery_decode_uses_verified_readers, m5_prefilled_indexes]
 
 _P = os.path.join(os.path.dirname(__file__), "..", "kani", "molecule", "gen_molecule.json")
 _OKFILE = os.path.join(os.path.dirname(__file__), "..", "kani", "molecule", "feasible.json")
